@@ -344,6 +344,34 @@ def r8_finished_is_monotone(ctx):
     ctx.ob('C03.R8', 'finished-only-grows', True, '', '%d uses of the finished set, all monotone' % n, nontrivial=False)
 
 
+def r9_at_most_once_accounting(ctx):
+    ctx.rule('C03.R9', 'P5 reviewed table: which nodes of a call graph count as "a request-scoped constructor that must run at most once per request" is decided '
+             'in three places of processing_pipeline::pipeline — `extract_request_scoped_compute_nodes` (what is built upstream and handed down), '
+             '`enforce_invariants` (the final count) and `extract_long_lived_inputs` — by the node kind, the component kind and `ComponentDb::lifecycle` / '
+             '`hydrated_component` only. Any further question asked of the component database there (where it derives from, whether it is a matcher, '
+             'its scope ..) is a new way to leave a constructor out of the accounting: it then runs once per stage and nothing notices, because the '
+             'counting check asks the same question.')
+    P_ = A + 'processing_pipeline::pipeline::'
+    REVIEWED = {'lifecycle', 'hydrated_component'}
+    n = 0
+    from .compiler_common import family_bodies
+    for fn in (P_ + 'extract_request_scoped_compute_nodes', P_ + 'RequestHandlerPipeline::enforce_invariants', P_ + 'extract_long_lived_inputs'):
+        bodies = family_bodies(ctx, 'pavexc', [fn]) if ctx.fb.bodies_of_item('pavexc', fn) else []
+        if not ctx.need('C03.R9', fn.replace(P_, ''), bodies):
+            continue
+        asked = {}
+        for b in bodies:
+            for bb, t in b.calls():
+                c = strip_generics(callee(t) or '')
+                if '::components::db::ComponentDb::' in c or '::computation_db::' in c.lower() and 'ComputationDb::' in c:
+                    asked.setdefault(c.split('::')[-1], b.loc(bb, t))
+        n += len(asked)
+        new_q = sorted(set(asked) - REVIEWED)
+        ctx.ob('C03.R9', 'accounting-questions|%s' % fn.split('::')[-1], not new_q, asked[new_q[0]] if new_q else bodies[0].loc(),
+               '%s asks the component database: %s%s' % (fn.split('::')[-1], sorted(asked), '' if not new_q else ' — not reviewed: %s' % new_q))
+    ctx.floor('C03.R9', 'component-database questions in the accounting functions', n, 3)
+
+
 def check(ctx):
     r1_tables(ctx)
     r2_dedup(ctx)
@@ -353,3 +381,4 @@ def check(ctx):
     r6_bound_once(ctx)
     r7_expanded_once(ctx)
     r8_finished_is_monotone(ctx)
+    r9_at_most_once_accounting(ctx)
